@@ -472,14 +472,32 @@ def layer_abandoned_settings(ctx, n):
     rng = ctx.rng
     for case in range(n):
         kind = rng.choice(['target-expression-fails-half-way', 'target-set-then-body-fails', 'domain-set-then-body-fails',
-                           'context-set-then-body-fails', 'target-expression-yields-object'])
+                           'context-set-then-body-fails', 'target-expression-yields-object', 'target-expression-inserts-an-object',
+                           'target-expression-inserts-two-objects'])
         outer = rng.choice([None, 'fr', 'it'])
         calls = []
 
+        class LangObject:
+            """neither string nor number nor __html__: offered to the translation function when inserted"""
+
+            def __init__(self, code):
+                self.code = code
+
         def tr(msgid, domain=None, mapping=None, context=None, target_language=None, default=None):
+            if isinstance(msgid, LangObject):
+                calls.append(('OBJECT:' + msgid.code, domain, context, target_language))
+                return msgid.code
             calls.append((msgid, domain, context, target_language))
             return '[%s]' % msgid
-        if kind == 'target-expression-fails-half-way':
+        objs = {'lo1': LangObject('d'), 'lo2': LangObject('e')}
+        if kind == 'target-expression-inserts-an-object':
+            # while the target expression is being evaluated the language in force is still the enclosing one
+            inner = '<p i18n:target="string:${lo1}e"><b i18n:translate="">in</b></p>'
+            inner_calls = [('OBJECT:d', None, None, outer), ('in', None, None, 'de')]
+        elif kind == 'target-expression-inserts-two-objects':
+            inner = '<p i18n:target="string:${lo1}${lo2}"><b i18n:translate="">in</b></p>'
+            inner_calls = [('OBJECT:d', None, None, outer), ('OBJECT:e', None, None, outer), ('in', None, None, 'de')]
+        elif kind == 'target-expression-fails-half-way':
             inner = '<p tal:on-error="string:E" i18n:target="string:${first}_${nosuchname}"><b i18n:translate="">in</b></p>'
             inner_calls = []
         elif kind == 'target-set-then-body-fails':
@@ -499,7 +517,7 @@ def layer_abandoned_settings(ctx, n):
         body = '<p>E</p>' if 'on-error' in inner else '<p><b>[in]</b></p>'
         want = '<r><i>[before]</i>%s<i>[after]</i></r>' % body
         try:
-            got = PageTemplate(src, translate=tr)(first='de', target_language=outer)
+            got = PageTemplate(src, translate=tr)(first='de', target_language=outer, **objs)
         except Exception as e:
             got = 'RAISED %s: %s' % (type(e).__name__, str(e).split('\n')[0][:100])
         ctx.mon('abandoned-settings-compared')
